@@ -9,7 +9,7 @@ RULE = ("histories of kernel events (spawn/exit->zombie/reap/PID reuse by a live
         "calls over PIDs {0,1,2,3,7,2^31-1} (Process() also on -1,-7,5,2^31,2^64), start ticks from 21 values (bases 0..2^40, 10^12, each +0/+1/+2) with PID reuse at adjacent ticks (p=0.6), process names with 0-3 blanks/parentheses/15 bytes, thread-count changes, incl. adjacent "
         "ticks, drawn from a weighted grammar with motifs 'process ends, 0-2 queries (is_running/ppid/process_iter/"
         "create_time/boot_time/==/hash), PID reused or not, then a signal or setter on the old object' and 'clock step + "
-        "boot_time() + second object'; 18% of all cases run in workers started with python -O (3/4) or -OO (asserts stripped) plus a systematic recycled-PID block (every signal method and setter, Process and Popen, live and zombie reuse, no is_running() since; normal and -O/-OO); 150 live cases per quick run: 3-8 setter calls through the real C extension on a throw-away child, CPU numbers/nice/ionice/rlimit values at the 2^31, 2^32, 2^40, 2^63, 2^64 boundaries (k*2^32 + eligible CPU etc.), kernel-side mask/nice/ioprio/limits read back; PID 7 is the PID psutil was imported under (os.getpid() patched during import: forked-child situation); wait() caching the exit code then PID reuse; process_iter() generators suspended between PIDs while other events happen; two-step calls whose window holds kernel events applied by the fake kernel at the moment psutil issues its system call (reap+respawn = the inherent TOCTOU, exit, reap, thread, clock, nothing); psutil.Popen objects whose child is already gone; guarded calls inside (nested) oneshot() blocks before/after exit+reuse, as_dict(); 30% of objects are psutil.Popen over a stub subprocess.Popen; every signal method and setter with valid and invalid arguments. Class = most specific "
+        "boot_time() + second object'; copies of Process objects (copy.copy / copy.deepcopy / pickle round trip / pickle dumped while alive and loaded after the PID was recycled; what the tree under test supports is probed) made from live and from stale originals, then ==/hash/is_running/signals/setters on the copy; 18% of all cases run in workers started with python -O (3/4) or -OO (asserts stripped) plus a systematic recycled-PID block (every signal method and setter, Process and Popen, live and zombie reuse, no is_running() since; normal and -O/-OO); 150 live cases per quick run: 3-8 setter calls through the real C extension on a throw-away child, CPU numbers/nice/ionice/rlimit values at the 2^31, 2^32, 2^40, 2^63, 2^64 boundaries (k*2^32 + eligible CPU etc.), kernel-side mask/nice/ioprio/limits read back; PID 7 is the PID psutil was imported under (os.getpid() patched during import: forked-child situation); wait() caching the exit code then PID reuse; process_iter() generators suspended between PIDs while other events happen; two-step calls whose window holds kernel events applied by the fake kernel at the moment psutil issues its system call (reap+respawn = the inherent TOCTOU, exit, reap, thread, clock, nothing); psutil.Popen objects whose child is already gone; guarded calls inside (nested) oneshot() blocks before/after exit+reuse, as_dict(); 30% of objects are psutil.Popen over a stub subprocess.Popen; every signal method and setter with valid and invalid arguments. Class = most specific "
         "feature reached (set-reused-after-gone, set-reused, pid0, set-gone, set-zombie, ...). Non-trivial = some signal/"
         "setter/query on an object was executed; distinct = distinct canonical history.")
 TRUSTED = PC.TRUSTED
@@ -58,6 +58,7 @@ def gen_tables(impl_dir, out_dir):
     import os
 
     from pv import gallina as G
+    PC.probe_copy_support(impl_dir)
     rows, scanned = [], []
     for rel, wanted in sorted(GUARD_FUNCTIONS.items()):
         src = open(os.path.join(impl_dir, rel)).read()
